@@ -26,6 +26,7 @@ func init() {
 }
 
 type c12Input struct {
+	DeadlineS int `json:"deadline_s,omitempty"` // seconds to wait for the stream to close (default 25)
 	Graph string  `json:"graph"` // name of the family
 	Spec  string  `json:"spec"`  // the family as a Coq term (generator), so that large graphs stay small in the cases file
 	Adj   [][]int `json:"adj"`   // adj[v] = successors of v
@@ -34,6 +35,7 @@ type c12Input struct {
 	Bound int     `json:"bound"`
 	Emit  bool    `json:"emit"`
 	Procs int     `json:"gomaxprocs"`
+	Jumps int     `json:"jumps,omitempty"` // 2: a second jump to the same mark follows, with a condition that never holds
 }
 type c12Obs struct {
 	Closed   bool   `json:"closed"`
@@ -110,6 +112,10 @@ func loopProg(in c12Input) []tStmt {
 	}
 	p = append(p, tStmt{Op: "increment", Str: "$m.c", N: 1},
 		tStmt{Op: "jump", Str: "s", Has: &hExpr{Kind: "cond", Key: "$m.c", Op: "lt", Arg: float64(in.Bound)}, N: emit})
+	if in.Jumps == 2 {
+		// the mark now waits for its signal to come back from both jumps; rows are those the first jump emits
+		p = append(p, tStmt{Op: "jump", Str: "s", Has: &hExpr{Kind: "cond", Key: "$m.c", Op: "lt", Arg: -1.0}, N: 1})
+	}
 	return p
 }
 
@@ -138,7 +144,11 @@ func loopWorker(req json.RawMessage) interface{} {
 	start := time.Now()
 	res := pipeline.Run(ctx, pipe, wd)
 	ob := c12Obs{Rows: []int{}}
-	deadline := time.After(25 * time.Second)
+	dl := 25
+	if in.DeadlineS > 0 {
+		dl = in.DeadlineS
+	}
+	deadline := time.After(time.Duration(dl) * time.Second)
 loop:
 	for {
 		select {
@@ -247,6 +257,10 @@ func c12Inputs(ctx *Ctx) []c12Input {
 							in := c12Input{Graph: f.name, Spec: f.spec, Adj: f.adj, Hops: hops, Start: st, Bound: bound, Emit: emit, Procs: procs}
 							if c12Size(in) <= ctx.Pick(6000, 60000) {
 								out = append(out, in)
+								if !big && hops == 1 && procs == 16 && bound >= 1 {
+									in.Jumps = 2
+									out = append(out, in)
+								}
 							}
 						}
 					}
@@ -307,7 +321,7 @@ func runC12(ctx *Ctx) error {
 	ctx.Shard = 60
 	ctx.Scope = "N_scope"
 	ctx.Exhaustive = true
-	ctx.Rule = "grid: graph families (empty, single vertex, self-loop, chain, cycles of 5/120/1300, complete K4, stars of 60/700 leaves pointing back at the hub; thorough adds K6, cycle 5200, star 2600, chain 40 and 12 random digraphs) x loop V(start).as(m).set($m.c,0).mark(s).out(){1,2}.increment($m.c).jump(s, $m.c < bound, emit) with bound in {0,1,2,3,5}, emit on/off, start = all vertices or one vertex, GOMAXPROCS 1 and 16; travelers in flight range from 0 to several times the 50-slot queue channels and the 1000-slot slice; production compiler + pipeline.Run on badger in worker sub-processes, 25 s deadline; observed: stream closed, multiset of vertex ids delivered, goroutines left; non-trivial = at least one traveler jumps back; distinct by input"
+	ctx.Rule = "grid: graph families (empty, single vertex, self-loop, chain, cycles of 5/120/1300, complete K4, stars of 60/700 leaves pointing back at the hub; thorough adds K6, cycle 5200, star 2600, chain 40 and 12 random digraphs) x loop V(start).as(m).set($m.c,0).mark(s).out(){1,2}.increment($m.c).jump(s, $m.c < bound, emit) [optionally followed by a second jump to s whose condition never holds] with bound in {0,1,2,3,5}, emit on/off, start = all vertices or one vertex, GOMAXPROCS 1 and 16; travelers in flight range from 0 to several times the 50-slot queue channels and the 1000-slot slice; production compiler + pipeline.Run on badger in worker sub-processes, 25 s deadline; observed: stream closed, multiset of vertex ids delivered, goroutines left; non-trivial = at least one traveler jumps back; distinct by input"
 	var inputs []c12Input
 	if ctx.Replay != nil {
 		var in c12Input
@@ -326,6 +340,30 @@ func runC12(ctx *Ctx) error {
 	os.Setenv("C12ROOT", root)
 	defer os.RemoveAll(root)
 	res := runIsolated("loop", reqs, 6, 90*time.Second)
+	rerunFailed("loop", reqs, res, 90*time.Second)
+	// a stream that did not close in time is only believed after the same request, alone, had 120 s
+	confirmedStuck := false
+	for i, in := range inputs {
+		var ob c12Obs
+		if res[i].Crashed || res[i].Timeout {
+			continue
+		}
+		json.Unmarshal(res[i].Out, &ob)
+		if !ob.Closed && ob.Err == "" && !confirmedStuck {
+			in.DeadlineS = 120
+			b, _ := json.Marshal(in)
+			if again := runIsolated("loop", []json.RawMessage{b}, 1, 200*time.Second); len(again) == 1 {
+				res[i] = again[0]
+				var ob2 c12Obs
+				if !again[0].Crashed && !again[0].Timeout {
+					json.Unmarshal(again[0].Out, &ob2)
+				}
+				if !ob2.Closed {
+					confirmedStuck = true // one confirmed failure decides the run; the others keep their first observation
+				}
+			}
+		}
+	}
 	for i, in := range inputs {
 		var ob c12Obs
 		r := res[i]
